@@ -687,3 +687,19 @@ _anon = [0]'''), (P, '''                self.anon_id += 1
             t.type = t.value
         return t''')),
 ]
+
+CONTROLS += [
+    pos("integer suffix alternatives reordered (shorter alternative first)", ["C08"], ["R8.9"],
+        (L, 'r"(([uU]ll)|([uU]LL)|(ll[uU]?)|(LL[uU]?)|([uU][lL])|([lL][uU]?)|[uU])?"', 'r"([uU]|([uU]ll)|([uU]LL)|(ll[uU]?)|(LL[uU]?)|([uU][lL])|([lL][uU]?))?"')),
+    pos("location not refreshed for the next declarator", ["C10"], ["R10.7"],
+        (P, '''            tok = self._next_token_must_be(",", ";")
+            location = tok.location
+            if tok.type == ";":
+                break
+
+    def _maybe_parse_class_enum_decl(''', '''            tok = self._next_token_must_be(",", ";")
+            if tok.type == ";":
+                break
+
+    def _maybe_parse_class_enum_decl(''')),
+]
